@@ -65,15 +65,14 @@ def crop_event(c, lazy=False):
     return ev
 
 
-def block_event(n, shifted, radius_q, margin, lazy=False):
-    """radius_q: [num, den] in pixel units"""
+def block_event(n, shifted, radius_q, margin, lazy=False, has_cutoff=False, cutoff_q=(9, 4)):
+    """radius_q: [num, den] in pixel units or None (radius left to the metadata); margin: "true" / "false" / "default";
+    has_cutoff: the metadata records a semiangle cutoff (cutoff_q pixels).  The effective radius is computed by Pattern.tla."""
     import abtem
     nx, ny = n
-    r = radius_q[0] / radius_q[1]
-    eff = r + (1.0 if margin else 0.0)
-    from fractions import Fraction
-    ef = Fraction(radius_q[0], radius_q[1]) + (1 if margin else 0)
-    ev = {"k": "block", "n": [nx, ny], "shifted": shifted, "margin": margin, "lazy": lazy, "raised": False, "radius": [ef.numerator, ef.denominator],
+    margin = {True: "true", False: "false"}.get(margin, margin)
+    ev = {"k": "block", "n": [nx, ny], "shifted": shifted, "margin": margin, "lazy": lazy, "raised": False,
+          "radius_given": list(radius_q) if radius_q is not None else [], "has_cutoff": bool(has_cutoff), "cutoff": list(cutoff_q),
           "zeroed": [], "others_unchanged": True}
     try:
         from abtem.core.energy import energy2wavelength
@@ -84,9 +83,17 @@ def block_event(n, shifted, radius_q, margin, lazy=False):
             import dask.array as da
             arr = da.from_array(arr, chunks=(1, nx, ny))
         from abtem.core.axes import OrdinalAxis
-        dp = abtem.measurements.DiffractionPatterns(arr, sampling=(samp, samp), fftshift=shifted, metadata={"energy": ENERGY},
+        md = {"energy": ENERGY}
+        if has_cutoff:
+            md["semiangle_cutoff"] = cutoff_q[0] / cutoff_q[1] * DELTA
+        dp = abtem.measurements.DiffractionPatterns(arr, sampling=(samp, samp), fftshift=shifted, metadata=md,
                                                     ensemble_axes_metadata=[OrdinalAxis(values=(0, 1))])
-        out = dp.block_direct(radius=r * DELTA, margin=margin)
+        kw = {}
+        if radius_q is not None:
+            kw["radius"] = radius_q[0] / radius_q[1] * DELTA
+        if margin != "default":
+            kw["margin"] = margin == "true"
+        out = dp.block_direct(**kw)
         if lazy:
             out = out.compute()
         a = np.asarray(out.array, dtype=float)[1]
